@@ -257,6 +257,8 @@ class C09(Prop):
             for size in sorted({mx, mx + 1, max(mx - 1, 0), (1 << 31), (1 << 32) - 1, 1 << 24, 0x506F6F70}):
                 if size >= 1 << 32:
                     continue
+                if (64 << 20) < size <= mx:
+                    continue        # within the limit: the code would allocate it (up to 2 GiB) - not on a shared machine
                 for lead in ([], [b"xy"]):
                     full = size <= 5000 or (size in (65535, 65536) and not lead)
                     body = bytes(rng.randrange(256) for _ in range(size if full else rng.choice([0, 9])))
@@ -269,8 +271,13 @@ class C09(Prop):
         # 4. stalled peers (batched: evaluated concurrently by the harness)
         for _ in range(2 if quick else 40):
             batch = []
-            for _ in range(40):
-                msgs = [bytes(rng.randrange(256) for _ in range(rng.choice([0, 1, 2, 5, 30, 300]))) for _ in range(rng.randint(1, 3))]
+            for i in range(40):
+                # the harness drives odd entries through the typed ReadDelimitedMessage (proto.Unmarshal of each
+                # message): those carry valid wire-format messages; even entries (raw reader) carry arbitrary bytes
+                if i % 2:
+                    msgs = [wire_msg(rng, rng.choice([0, 2, 5, 30, 300])) for _ in range(rng.randint(1, 3))]
+                else:
+                    msgs = [bytes(rng.randrange(256) for _ in range(rng.choice([0, 1, 2, 5, 30, 300]))) for _ in range(rng.randint(1, 3))]
                 st = stream(msgs)
                 r = rng.random()
                 if r < 0.3:
